@@ -141,6 +141,9 @@ def body(chk):
     chk.sample({"product": results[0]["case"]["level"], "variables_checked": results[0]["n_vars"], "attributes_checked": results[0]["n_attrs"],
                 "problems": results[0]["bad"][:3]})
     chk.assumptions += ["numpy scalar types count as plain scalars for attributes; dicts, None, arrays and arbitrary objects do not"]
+    from harness import sessioncheck
+
+    sessioncheck.standard(chk)
     chk.finish(rule="every variable and attribute of every node of trees for levels 1.1 / 1.5 / 3.1, 1-4 images, three projection "
                     "designators, several value plans; evaluations = variables + attributes inspected; distinct = (level, images, "
                     "plan, designator)", exhaustive=False, extra={"variables": nv, "attributes": na})
